@@ -932,6 +932,10 @@ impl Rec {
                     return Err(format!("series {name}[{i}] = {v:?} but sample row has {row:?}"));
                 }
             }
+            let n_items = ser.iter(header).take(CAP).count();
+            if n_items != samples.len() {
+                return Err(format!("series {name}: iter yields {n_items} items but the sample row has {} samples", samples.len()));
+            }
             n_series += 1;
         }
         if n_series != format.len() {
@@ -946,6 +950,21 @@ impl Rec {
             let name = ser.name(header).map_err(|x| e("selected series name", x))?;
             if name != key {
                 return Err(format!("samples.select({key:?}) returns the series named {name:?}"));
+            }
+            let mut n_items = 0;
+            for (i, x) in ser.iter(header).take(CAP).enumerate() {
+                let v = match x.map_err(|x| e("selected series value", x))? {
+                    None => None,
+                    Some(v) => Some(conv(v)?),
+                };
+                let row = samples.get(i).and_then(|s| s.get(j)).cloned().flatten();
+                if row != v {
+                    return Err(format!("samples.select({key:?}).iter()[{i}] = {v:?} but the sample row has {row:?}"));
+                }
+                n_items += 1;
+            }
+            if n_items != samples.len() {
+                return Err(format!("samples.select({key:?}): iter yields {n_items} items but the sample row has {} samples", samples.len()));
             }
             for i in 0..samples.len() {
                 let row = samples[i].get(j).cloned().flatten();
